@@ -888,11 +888,13 @@ fn run_x2(ctx: &Ctx) -> Outcome {
     let m2 = ClientGoaway::new(if quick { "client-goaway-q" } else { "client-goaway-t" }, quick);
     let maxd = if quick { 8 } else { 11 };
     let m3 = ServerShutdown::new_variant(if quick { "server-shutdown-blocked-q" } else { "server-shutdown-blocked-t" }, quick, true);
-    let r1 = search(ctx, &m1, "C15", maxd, budget * 0.45, true);
-    let r2 = search(ctx, &m2, "C15", maxd, budget * 0.8, true);
-    let r3 = search(ctx, &m3, "C15", maxd, budget * 1.1, true);
+    // quick: explicit, machine-independent depths
+    let (d1, d2, d3, d4) = if quick { (6, 8, 6, 7) } else { (maxd, maxd, maxd, maxd) };
+    let r1 = search(ctx, &m1, "C15", d1, budget * 0.45, true);
+    let r2 = search(ctx, &m2, "C15", d2, budget * 0.8, true);
+    let r3 = search(ctx, &m3, "C15", d3, budget * 1.1, true);
     let m4 = ClientGoaway::new_variant(if quick { "client-goaway-parked-q" } else { "client-goaway-parked-t" }, quick, true);
-    let r4 = search(ctx, &m4, "C15", maxd, budget * 1.3, true);
+    let r4 = search(ctx, &m4, "C15", d4, budget * 1.3, true);
     fill_outcome(&mut out, &[(m1.name, &r1), (m2.name, &r2), (m3.name, &r3), (m4.name, &r4)]);
     out.set("exhaustive", json!(false));
     out.set("alphabet", json!({"server": m1.events.iter().map(|e| format!("{:?}", e)).collect::<Vec<_>>(), "client": m2.events.iter().map(|e| format!("{:?}", e)).collect::<Vec<_>>()}));
